@@ -362,7 +362,7 @@ class C04(Prop):
     id = 'C04'
     props_file = 'Props/C04.v'
     imports = ['Model.Feedback', 'Model.FeedbackObs']
-    quick_n = 400
+    quick_n = 300
     thorough_n = 6000
     rule = ('forests of scripted events (1-3 roots, <= 12 events, nesting depth <= 3, 0-4 handlers per event): plain '
             'handlers returning None / int (incl. 0) / list / raising, generator handlers with 0-3 yields (None / int / '
